@@ -84,6 +84,18 @@ class Model:
                 for x in {a, b}:
                     self.links_of[x].remove(l)
             return ("none",) if destroy else ("set", rem)
+        if name == "uf":
+            # Link.unlink_from(x): the link no longer lists x (any listing of it) and x no longer lists the link;
+            # unlink_from(None) drops one unassigned end
+            _, l, x = r
+            e = self.ends[l]
+            if x is None:
+                if None in e:
+                    e.remove(None)
+            elif x in e:
+                self.ends[l] = [y for y in e if y != x]
+                self.links_of[x].remove(l)
+            return ("none",)
         if name == "av":
             # Link.add_vertex: the vertex is appended to the link's vertices (even if already listed) and the
             # link is attached to it unless it already is
@@ -121,6 +133,15 @@ class Model:
                 self.members[u].append(n)
                 self.unis_of[n].append(u)
             return ("newvertex", n)
+        if name == "newv_u2":
+            for _ in range(2):
+                n = self._new_vertex()
+                for u in r[1]:
+                    self.members[u].append(n)
+                    self.unis_of[n].append(u)
+            return ("none",)
+        if name == "lawsnone":
+            return ("none",)
         if name == "newu2":
             for _ in range(2):
                 n = self._new_vertex()
